@@ -421,6 +421,19 @@ def v2_cases(repo, table):
                 continue
             pre = "Src = EEMSRead(InFileName = data.csv, InFieldName = Elev)\nSrc2 = EEMSRead(InFileName = data.csv, InFieldName = Elev2)\n"
             cases.append({"v2": pre + v2src, "v3": pre + v3src, "name": v2, "variant": variant})
+    # half-migrated files: an EEMS 2.0 file is converted as a whole, also the commands already written MPilot-style that still carry
+    # NewFieldName / OutFileName (they are dropped), wherever the EEMS 2.0 command sits
+    pre = "Src = EEMSRead(InFileName = data.csv, InFieldName = Elev)\nSrc2 = EEMSRead(InFileName = data.csv, InFieldName = Elev2)\n"
+    legacy = "SUM(InFieldNames = [Src, Src2], NewFieldName = Tot)"
+    legacy3 = "Tot = Sum(InFieldNames = [Src, Src2])"
+    migrated = [("AB = Sum(InFieldNames = [Src, Src2], OutFileName = out.csv)", "AB = Sum(InFieldNames = [Src, Src2])"),
+                ("CP = Copy(InFieldName = Src, NewFieldName = Ignored, OutFileName = out.csv)", "CP = Copy(InFieldName = Src)"),
+                ("MX = Maximum(InFieldNames = [Src, Src2], NewFieldName = Other)", "MX = Maximum(InFieldNames = [Src, Src2])")]
+    for (m2, m3) in migrated:
+        for first in (True, False):
+            v2t = pre + ((legacy + "\n" + m2) if first else (m2 + "\n" + legacy))
+            v3t = pre + ((legacy3 + "\n" + m3) if first else (m3 + "\n" + legacy3))
+            cases.append({"v2": v2t, "v3": v3t, "name": "mixed", "variant": "half-migrated/%s" % ("legacy-first" if first else "legacy-last")})
     return cases
 
 
